@@ -144,23 +144,23 @@ Fixpoint cell_loop (fuel i bound added : nat) : nat * nat :=
   end.
 
 (* get_num_autocompleted_cells *)
-Definition autocompleted (cols rows nonempty : nat) : nat :=
-  if Nat.ltb (cols * rows) nonempty then 0 else cols * rows - nonempty.
+Definition autocompleted (cols rows nonempty : N) : N :=
+  if N.ltb (cols * rows) nonempty then 0%N else (cols * rows - nonempty)%N.
 
 (* try_opening_row for a table with `aligns` alignments whose counters are (cols, rows, nonempty);
    this_row = Some n when fn row split the line into n >= 1 cells, None when it refused the line.
    Result: None = no row is added; Some (k, nonempty') = a TableRow(false) with k TableCell children
    is appended and num_nonempty_cells becomes nonempty'. *)
-Definition try_opening_row_cells (blank : bool) (cols rows nonempty aligns : nat) (this_row : option nat)
-  : option (nat * nat) :=
+Definition try_opening_row_cells (blank : bool) (cols rows nonempty : N) (aligns : nat) (this_row : option nat)
+  : option (nat * N) :=
   if blank then None
-  else if N.ltb max_autocompleted_cells (N.of_nat (autocompleted cols rows nonempty)) then None
+  else if N.ltb max_autocompleted_cells (autocompleted cols rows nonempty) then None
   else match this_row with
        | None => None
        | Some cells =>
          let '(i, k1) := cell_loop (Nat.min aligns cells) 0 (Nat.min aligns cells) 0 in
          let '(_, k2) := cell_loop aligns i aligns k1 in
-         Some (k2, nonempty + i)
+         Some (k2, (nonempty + N.of_nat i)%N)
        end.
 
 (* fn row: Some only for a non-empty cell vector that did not hit the u16::MAX column limit *)
